@@ -373,7 +373,10 @@ PROCS = [("src/lib.rs", "dealloc_chunk_list", "dealloc_chunk_list"),
          ("src/lib.rs", "alloc_slice_fill_with", "slice_fill_with_loop", ("for", 1)),
          ("src/lib.rs", "try_alloc_slice_fill_with", "try_slice_fill_with_loop", ("for", 1)),
          ("src/lib.rs", "alloc_slice_try_fill_with", "slice_try_fill_with_loop", ("for", 1)),
-         ("src/collections/vec.rs", "extend_with", "vec_extend_with")]
+         ("src/collections/vec.rs", "extend_with", "vec_extend_with"),
+         ("src/collections/vec.rs", "impl:Iterator for DrainFilter:next", "vec_drain_filter_next", ("while", 1),
+          {"rename": [("(self.pred)", "pred"), ("self.idx", "idx"), ("self.del", "del"), ("self.old_len", "old_len")],
+           "closures": ["pred"], "index": True})]
 CONST_FILE = "src/lib.rs"
 
 
@@ -427,6 +430,7 @@ class Parser:
         self.i = 0
         self.skipped_asserts = 0
         self.closures = set()          # parameters that are caller-supplied closures (procedures only)
+        self.index_ok = False          # s[i] denotes the address of the place (procedures that ask for it)
         self.dropvars = set()          # names bound to the value a closure answered with (not recorded)
 
     # -- token helpers
@@ -723,6 +727,15 @@ class Parser:
                 if set(arms) != {"Ok", "Err"}:
                     raise Unsupported("match arms")
                 out.append("SIfAsk false %s [%s] [%s] [%s]" % (q(f), "; ".join(a), "; ".join(arms["Ok"]), "; ".join(arms["Err"])))
+            elif tok == "return" and self.peek(1) == "Some" and self.peek(2) == "(" and self.kind(3) == "id" and self.peek(4) == "::" and self.kind(5) == "id" and self.peek(6) == "(":
+                # return Some(ptr::read(place)); : the read is recorded, then the procedure is left
+                self.eat(); self.eat(); self.eat("("); self.eat(); self.eat()
+                f = self.eat()
+                a = self.args()
+                self.eat(")")
+                self.eat(";")
+                out.append("SDo %s [%s]" % (q(f), "; ".join(a)))
+                out.append("SReturn")
             elif tok == "return":
                 self.eat()
                 depth = 0
@@ -932,6 +945,12 @@ class Parser:
             elif tok == "?":
                 self.eat()
                 e = "(ETry %s)" % e
+            elif tok == "[" and self.index_ok:
+                # s[i] on a slice made by from_raw_parts(_mut): the place, i.e. its address (`&` is transparent)
+                self.eat()
+                i = self.expr()
+                self.eat("]")
+                e = "(EMeth1 %s \"index\" %s)" % (e, i)
             else:
                 return e
 
@@ -1609,9 +1628,14 @@ def emit(repo):
             if not found:
                 raise Unsupported("function not found")
             params, body = found
+            opts = pr[4] if len(pr) > 4 else {}
+            for a, b in opts.get("rename", []):
+                # fields of the receiver that the procedure updates, read as local variables
+                body = body.replace(a, b)
             toks = tokenize(body)
             p = Parser(toks)
-            p.closures = set(param_names(params))
+            p.closures = set(param_names(params)) | set(opts.get("closures", []))
+            p.index_ok = bool(opts.get("index"))
             if len(pr) > 3:
                 kind, kth = pr[3]
                 hits = [i for i, t in enumerate(toks) if t[1] == kind]
@@ -1631,6 +1655,7 @@ def emit(repo):
                     end = matching_tok(toks, next(j for j in range(p.i, len(toks)) if toks[j][1] == "{"))
                     sub = Parser(toks[p.i:end] + [("op", "}")])
                     sub.closures = p.closures
+                    sub.index_ok = p.index_ok
                     ss = sub.proc_stmts()
             else:
                 p.eat("{")
